@@ -193,6 +193,11 @@ pub struct SysCase {
     pub pre_wait: u8,
     #[serde(default)]
     pub pre_frames: u8,
+    /// the first block is consumed by a fast-load request (deck stopped, fast loading on) — which
+    /// may leave it early: wrong flag byte, or fewer bytes asked for than it holds — and only then
+    /// does the host press PLAY: the EAR input must carry the tape from its second block on
+    #[serde(default)]
+    pub fast_first: bool,
 }
 
 pub fn check_sys(c: &SysCase, rec: &mut Rec) -> Result<(), String> {
@@ -222,6 +227,37 @@ pub fn check_sys(c: &SysCase, rec: &mut Rec) -> Result<(), String> {
         rec.class("szx-with-keyb-chunk-loaded-before-the-tape");
     }
     rig.e.load_tape(Tape::Tap(DynAsset::new(MemAsset::new(image)))).map_err(|x| format!("load_tape: {:?}", x))?;
+    let fast_first = c.fast_first && blocks.len() >= 2 && !c.requests.is_empty();
+    let k0 = if fast_first { 1 } else { 0 };
+    if fast_first {
+        rig.e.set_fast_load(true);
+        let (rq, block) = (&c.requests[0], &blocks[0]);
+        let r = c10::resolve(rq, Some(block));
+        if !rq.load && block.len() >= 2 {
+            let payload = &block[1..block.len() - 1];
+            for (i, v) in payload.iter().enumerate().take(r.de as usize) {
+                let a = r.ix.wrapping_add(i as u16);
+                let v = if rq.verify_mismatch_at.map(|m| m as usize % payload.len().max(1)) == Some(i) { v ^ 1 } else { *v };
+                mach::poke(&mut rig.e, &mut rig.m, a, v);
+            }
+        }
+        c10::setup_call(&mut rig, &r);
+        let snapshot_mem = rig.m.clone();
+        let mut rd = |a: u16| snapshot_mem.read(a);
+        let want = ld_bytes(block, &r, &mut rd);
+        let hit = mach::run_to(&mut rig.e, &[c10::RET_ADDR], 3).map_err(|e| format!("fast request against block 0: {}", e))?;
+        if hit.is_none() {
+            return Err("harness: the fast request against the first block did not return (C10's subject)".into());
+        }
+        for (a, v) in &want.stores {
+            rig.m.write(*a, *v);
+        }
+        rig.e.set_fast_load(c.fastload_enabled);
+        rec.class("first-block-consumed-by-a-fast-request-then-PLAY");
+        if want.consumed < block.len() {
+            rec.class(if block.len() > 130 { "fast request left a block of more than 128 bytes early" } else { "fast request left a short block early" });
+        }
+    }
     rig.e.play_tape();
     let frame_len = c.machine.frame_len() as u64;
     let now_t = |e: &mut crate::host::Emu| e.verif_total_frames() * frame_len + e.verif_frame_clocks() as u64;
@@ -230,7 +266,7 @@ pub fn check_sys(c: &SysCase, rec: &mut Rec) -> Result<(), String> {
         // leave the ROM loader enough of the first block's pilot tone: it waits about a second after the
         // first edge and then wants 256 good leader pulse pairs (~66 frames in all); a data-flag pilot
         // lasts ~100 frames, a header pilot ~250
-        let first_flag = blocks.first().and_then(|b| b.first().copied()).unwrap_or(0xFF);
+        let first_flag = blocks.get(k0).and_then(|b| b.first().copied()).unwrap_or(0xFF);
         let h = if first_flag == 0 { (c.pre_frames % 90) as usize + 10 } else { (c.pre_frames % 16) as usize + 5 };
         if c.pre_wait % 3 == 1 {
             mach::poke_bytes(&mut rig.e, &mut rig.m, 0x8000, &[0xFB, 0x76, 0x18, 0xFC]);
@@ -243,7 +279,7 @@ pub fn check_sys(c: &SysCase, rec: &mut Rec) -> Result<(), String> {
         }
         mach::run_frames(&mut rig.e, h)?;
     }
-    for (k, rq) in c.requests.iter().enumerate() {
+    for (k, rq) in c.requests.iter().enumerate().skip(k0) {
         let block = match blocks.get(k) {
             Some(b) => b,
             None => break,
@@ -263,8 +299,9 @@ pub fn check_sys(c: &SysCase, rec: &mut Rec) -> Result<(), String> {
         let mut rd = |a: u16| snapshot_mem.read(a);
         let want = ld_bytes(block, &r, &mut rd);
         let ctx = format!(
-            "request {} (A={:#04x} {} IX={:#06x} DE={:#06x}) against playing block {} of {} bytes (flag {:#04x})",
-            k, r.a, if r.load { "LOAD" } else { "VERIFY" }, r.ix, r.de, k, block.len(), block[0]
+            "request {} (A={:#04x} {} IX={:#06x} DE={:#06x}) against playing block {} of {} bytes (flag {:#04x}){}",
+            k, r.a, if r.load { "LOAD" } else { "VERIFY" }, r.ix, r.de, k, block.len(), block[0],
+            if fast_first { format!(" — block 0 ({} bytes) was consumed by a fast request before PLAY", blocks[0].len()) } else { String::new() }
         );
         // pilot + data + pause is at most ~ 30 M T-states for these block sizes
         let hit = mach::run_to(&mut rig.e, &[c10::RET_ADDR], 700).map_err(|e| format!("{}: {}", ctx, e))?;
@@ -286,7 +323,7 @@ pub fn check_sys(c: &SysCase, rec: &mut Rec) -> Result<(), String> {
         c10::compare_memory(&rig, &ctx)?;
         // tape time is emulated time: a header block (pilot of exactly 8063 pulses) read to its end
         // must be over when its nominal duration (plus at most 32 T per pulse) has passed since PLAY
-        if k == 0 && block[0] == 0x00 && want.consumed == block.len() {
+        if k == k0 && block[0] == 0x00 && want.consumed == block.len() {
             let pulses = block_pulses(block);
             let nominal: u64 = pulses.iter().map(|(_, l)| *l as u64).sum();
             let elapsed = now_t(&mut rig.e) - t_play;
@@ -419,7 +456,15 @@ pub fn sys_strategy() -> impl Strategy<Value = SysCase> {
         any::<u64>(),
         (any::<bool>(), prop_oneof![2 => Just(false), 1 => Just(true)], 0u8..3, any::<u8>()),
     )
-        .prop_map(|(machine, blocks, requests, ram_seed, (fastload_enabled, szx_keyb_first, pre_wait, pre_frames))| SysCase { machine, blocks, requests, ram_seed, fastload_enabled, szx_keyb_first, pre_wait, pre_frames })
+        .prop_map(|(machine, mut blocks, requests, ram_seed, (fastload_enabled, szx_keyb_first, pre_wait, pre_frames))| {
+            // a third of the two-block tapes: first block taken by a fast request before PLAY; that
+            // block is then usually longer than the tape buffer (128 bytes)
+            let fast_first = blocks.len() == 2 && ram_seed % 3 == 0;
+            if fast_first && ram_seed % 4 != 1 {
+                blocks[0].len = 129 + blocks[0].len % 132;
+            }
+            SysCase { machine, blocks, requests, ram_seed, fastload_enabled, szx_keyb_first, pre_wait, pre_frames, fast_first }
+        })
 }
 
 pub fn run(run: &mut Run) {
@@ -439,7 +484,7 @@ pub fn replay(run: &mut Run, phase: &str, case: &serde_json::Value) -> Result<()
 }
 
 pub const LEVEL: &str = "exploration";
-pub const RULE: &str = "waveform: TAP images of 1..3 blocks (all flag bytes, payload 0..260 bytes across the 128-byte refill boundary, right/wrong checksum) played through the pulse generator (tape asset delivering everything at once or at most 1..255 bytes per read call) with time advanced by a cycled schedule of 1..64 steps of 1..16 T-states (uniform, all-1, all-16, sawtooth, instruction-like mixes); every interval between EAR edges is compared with the nominal list synthesised from the bytes: pilot count 8063 (+-1) for flag 0x00 / >= 3223 otherwise, 667, 735, two equal 855/1710 pulses per bit MSB first for every byte, pause 3.0..4.0 M T; each pulse within [nominal, nominal+32]; count and order exact. rom-loader-real-time: the real ROM LD-BYTES is called (requests as in C10) while the tape plays on the emulator (in half of the cases with the host's fast-load setting switched on: a playing deck must still deliver every block through EAR; in two thirds with the CPU first halted or looping in contended RAM for 10..99 frames (5..20 before a data-flag block, whose pilot is shorter) while the tape plays; a header block read to its end must be over when its nominal duration plus at most 32 T per pulse has passed since PLAY); carry, IX, DE and memory must equal the LD-BYTES model of the block's bytes (which C10 shows fast loading equals). ear-on-every-ula-address: while a block plays, IN from a generated even port address (high byte 0xFF, 0x00, 0xFE, 0xBF or any) must show in bit 6 the level that two bracketing reads of 0x7FFE show (samples where the bracketing reads differ are not judged). non-trivial (waveform) = block with >= 2 distinct bytes, length other than 19/6914, schedule with >= 3 distinct step sizes; (system) every request; distinct = hash of (block bytes, schedule) / (case, request)";
+pub const RULE: &str = "waveform: TAP images of 1..3 blocks (all flag bytes, payload 0..260 bytes across the 128-byte refill boundary, right/wrong checksum) played through the pulse generator (tape asset delivering everything at once or at most 1..255 bytes per read call) with time advanced by a cycled schedule of 1..64 steps of 1..16 T-states (uniform, all-1, all-16, sawtooth, instruction-like mixes); every interval between EAR edges is compared with the nominal list synthesised from the bytes: pilot count 8063 (+-1) for flag 0x00 / >= 3223 otherwise, 667, 735, two equal 855/1710 pulses per bit MSB first for every byte, pause 3.0..4.0 M T; each pulse within [nominal, nominal+32]; count and order exact. rom-loader-real-time: the real ROM LD-BYTES is called (requests as in C10) while the tape plays on the emulator (in half of the cases with the host's fast-load setting switched on: a playing deck must still deliver every block through EAR; in two thirds with the CPU first halted or looping in contended RAM for 10..99 frames (5..20 before a data-flag block, whose pilot is shorter) while the tape plays; a header block read to its end must be over when its nominal duration plus at most 32 T per pulse has passed since PLAY); in a third of the two-block cases the first block (usually longer than the 128-byte tape buffer) is first consumed by a fast-load request with the deck stopped — possibly leaving it early — and PLAY is pressed only then: the real-time requests go on with the second block; carry, IX, DE and memory must equal the LD-BYTES model of the block's bytes (which C10 shows fast loading equals). ear-on-every-ula-address: while a block plays, IN from a generated even port address (high byte 0xFF, 0x00, 0xFE, 0xBF or any) must show in bit 6 the level that two bracketing reads of 0x7FFE show (samples where the bracketing reads differ are not judged). non-trivial (waveform) = block with >= 2 distinct bytes, length other than 19/6914, schedule with >= 3 distinct step sizes; (system) every request; distinct = hash of (block bytes, schedule) / (case, request)";
 pub const ASSUMPTIONS: &[&str] = &[
     "pulse generator is driven through the cfg(rustzx_verif) re-export of Tap/TapeImpl; time between toggles is measured at the granularity of the schedule steps",
     "the first pilot pulse of a block may merge with the preceding silence (pilot count tolerance of one)",
